@@ -6,7 +6,7 @@
      spec_ok  : the decidable specification, evaluated on the IMPLEMENTATION's answer
    Nothing here is proved; it is extracted to OCaml and run by the harness. *)
 From Coq Require Import List Arith NArith Bool.
-From MR Require Import Lib.Bytes Lib.Val Model.Index Model.Dag Model.Git Model.Tracking Model.CfgFile Model.Sched Model.Plan.
+From MR Require Import Lib.Bytes Lib.Val Model.Index Model.Dag Model.IndexGroups Model.Git Model.Tracking Model.CfgFile Model.Sched Model.Plan.
 From MR Require Model.Lock Model.Reader.
 Import ListNotations.
 Open Scope nat_scope.
@@ -79,18 +79,7 @@ Definition check_dag (v : val) : val :=
   VL [eB in_scope; mv; eB agree; eB (spec_groups a roots impl); eB (cyclic_b a roots)].
 
 (* ---------- C03 / C09: index level (labels) ---------- *)
-Definition labels_to_nodes (cfg : config) (ls : list str) : list nat :=
-  opt_list (map (fun p => index_of p (target_paths cfg)) ls).
-Definition nodes_to_labels (cfg : config) (ns : list nat) : list str :=
-  map (fun n => nth n (target_paths cfg) []) ns.
 
-Definition model_index_groups (cfg : config) (visible : list str) : res (list (list str)) :=
-  if has_dup (target_paths cfg) then ErrOther 2
-  else if negb (forallb (fun p => mem_str p (target_paths cfg)) visible) then ErrOther 3
-  else match api_groups (adj_of cfg) (labels_to_nodes cfg visible) with
-       | Ok gs => Ok (map (nodes_to_labels cfg) gs)
-       | ErrCycle n => ErrCycle n | Panic => Panic | ErrOther k => ErrOther k
-       end.
 
 (* the spec at index level is phrased over the DECLARED dependency relation dep_b, not over adj_of *)
 Definition spec_adj (cfg : config) : list (list nat) :=
@@ -206,9 +195,6 @@ Definition check_C01 (v : val) : val :=
   VL [eB in_scope; VL [eStrs m_targets]; eB agree; eB spec].
 
 (* pruning loop of analyze (changed targets only): groups restricted to a set, empty groups dropped *)
-Definition prune (gs : list (list str)) (keep : list str) : list (list str) :=
-  filter (fun g => match g with [] => false | _ => true end)
-         (map (filter (fun p => mem_str p keep)) gs).
 
 
 (* ---------- C03: analyze --target-groups (all targets, or pruned to the changed ones) ---------- *)
